@@ -58,6 +58,14 @@ REGISTRY["C16"] = {
             "Text streams: solver-driven finite case split over a 5-character alphabet, 4 encodings and all split points, through the real (C) codecs.",
     "note": "Trusted: z3 sequence theory, CrossHair's bytes/bytearray modelling, CPython codecs. Outside: longer inputs, suspension inside the wrapped receive(), codec internals.",
 }
+REGISTRY["C19"] = {
+    "harnesses": ["symx.harness.c19_itertools"],
+    "level": "model_checking",
+    "text": "Differential symbolic execution: each anyio.itertools function and anyio.functools.reduce is run on a symbolic element list (length and values symbolic, "
+            "sync and async source) with symbolic integer parameters incl. invalid ones and compared with its standard-library namesake on the same arguments; "
+            "z3 decides every comparison, each unit is run to path exhaustion. tee(): 2-3 consumer tasks with symbolic sleeps between anext() calls on the virtual loop.",
+    "note": "Trusted: z3, CrossHair's int/list/tuple modelling, the C itertools as reference. Outside: longer inputs, non-int elements, uvloop, trio.",
+}
 
 NOT_APPLICABLE = {
     "C17": "TLS record framing/fragmentation/truncation happens inside OpenSSL (ssl.SSLObject/MemoryBIO, C code): no available engine can execute it symbolically, and a stub would make the check a statement about the stub (DESIGN.md section 3, C17).",
